@@ -344,8 +344,12 @@ func (e *Engine) Edit(kind string) bool {
 		rel := cands[r.IntN(len(cands))]
 		e.P.Srcs[rel], e.prevSrc[rel] = e.prevSrc[rel], e.P.Srcs[rel]
 		os.WriteFile(filepath.Join(root, rel), []byte(e.P.Srcs[rel]), 0o644)
+		// A target that last ran on the intermediate content is stale again (state decides that). One that still holds
+		// the content now restored is current - unless another target sharing the source was built on the intermediate
+		// content meanwhile: the source's single record then moved on and dawn re-executes every target listing it (the
+		// known finding of C02, named scenarios). No expectation either way for the listing targets.
 		for _, t := range e.srcTargets(rel) {
-			e.relevant(t.Label())
+			e.uncertain(t.Label())
 		}
 		e.step("edit", "src-revert "+rel)
 	case "atom-revert":
